@@ -44,8 +44,8 @@ def cells(tier, seed):
 
 
 def explore_opts(params, tier):
-    return {"timeout_s": 1.0 if tier == "quick" else 30.0, "max_paths": 8, "norm_first": params["group"] == "linalg",
-            "engine_opts": {"cut_sites": ("make_sparse_from_indices_and_values",)}}
+    return {"timeout_s": 1.0 if tier == "quick" else 8.0, "max_paths": 8, "norm_first": params["group"] == "linalg",
+            "engine_opts": {"cut_sites": ("make_sparse_from_indices_and_values",), "floor_cut": True}}
 
 
 def describe(tier):
